@@ -267,8 +267,7 @@ func arrBulks(r rv) ([][]byte, bool) {
 	return out, true
 }
 
-func VF_C10_hkeys_hvals_hgetall() {
-	vfOpt("maporder", 1)
+func c10ReadAll(which int) {
 	m := hNewDb(2)
 	st := c10Pre(m, 3, vBytes)
 	var names, vals [][]byte
@@ -276,25 +275,33 @@ func VF_C10_hkeys_hvals_hgetall() {
 		names = append(names, f.name)
 		vals = append(vals, f.val)
 	}
+	cmds := []string{"hkeys", "hvals", "hgetall"}
+	got := hExecPerm(m, bs(cmds[which]), bs("k"))
 	if st.kind == kWrong {
-		vfAssert(isWrongType(hExec(m, bs("hkeys"), bs("k"))), "hkeys-wrongtype-reply")
-		vfAssert(isWrongType(hExec(m, bs("hvals"), bs("k"))), "hvals-wrongtype-reply")
-		vfAssert(isWrongType(hExec(m, bs("hgetall"), bs("k"))), "hgetall-wrongtype-reply")
+		vfAssert(isWrongType(got), cmds[which]+"-wrongtype-reply")
 		return
 	}
-	g, ok := arrBulks(hExec(m, bs("hkeys"), bs("k")))
-	vfAssert(ok && permBytes(g, names), "hkeys-reply")
-	g, ok = arrBulks(hExec(m, bs("hvals"), bs("k")))
-	vfAssert(ok && permBytes(g, vals), "hvals-reply")
-	g, ok = arrBulks(hExec(m, bs("hgetall"), bs("k")))
-	vfAssert(ok && len(g) == 2*len(st.fields), "hgetall-reply-shape")
-	var pairs []hfield
-	for i := 0; i+1 < len(g); i += 2 {
-		pairs = append(pairs, hfield{name: g[i], val: g[i+1]})
+	g, ok := arrBulks(got)
+	vfAssert(ok, cmds[which]+"-reply-kind")
+	switch which {
+	case 0:
+		vfAssert(permBytes(g, names), "hkeys-reply")
+	case 1:
+		vfAssert(permBytes(g, vals), "hvals-reply")
+	default:
+		vfAssert(len(g) == 2*len(st.fields), "hgetall-reply-shape")
+		var pairs []hfield
+		for i := 0; i+1 < len(g); i += 2 {
+			pairs = append(pairs, hfield{name: g[i], val: g[i+1]})
+		}
+		vfAssert(permFields(pairs, st.fields), "hgetall-reply")
 	}
-	vfAssert(permFields(pairs, st.fields), "hgetall-reply")
-	c10Post(m, st, "hgetall")
+	c10Post(m, st, cmds[which])
 }
+
+func VF_C10_hkeys()   { c10ReadAll(0) }
+func VF_C10_hvals()   { c10ReadAll(1) }
+func VF_C10_hgetall() { c10ReadAll(2) }
 
 func VF_C10_hincrby() {
 	m := hNewDb(2)
@@ -376,7 +383,6 @@ func VF_C10_hincrby_fresh_key_error() {
 }
 
 func VF_C10_hrandfield() {
-	vfOpt("maporder", 1)
 	m := hNewDb(2)
 	st := c10Pre(m, 3, vBytes)
 	mode := vfChoice("mode", 3) // 0: no count, 1: count, 2: count WITHVALUES
@@ -384,15 +390,15 @@ func VF_C10_hrandfield() {
 	var cnt int64
 	switch mode {
 	case 0:
-		got = hExec(m, bs("hrandfield"), bs("k"))
+		got = hExecPerm(m, bs("hrandfield"), bs("k"))
 	case 1:
 		cnt = vfInt64("count")
 		vfAssume(cnt > -4 && cnt < 6) // larger |count| only repeats the loop: C04's subject
-		got = hExec(m, bs("hrandfield"), bs("k"), vfNumStr(cnt))
+		got = hExecPerm(m, bs("hrandfield"), bs("k"), vfNumStr(cnt))
 	default:
 		cnt = vfInt64("count")
 		vfAssume(cnt > -4 && cnt < 6)
-		got = hExec(m, bs("hrandfield"), bs("k"), vfNumStr(cnt), vfCase("wv", "withvalues"))
+		got = hExecPerm(m, bs("hrandfield"), bs("k"), vfNumStr(cnt), vfCase("wv", "withvalues"))
 	}
 	if st.kind == kWrong {
 		vfAssert(isWrongType(got), "hrandfield-wrongtype-reply")
